@@ -2,12 +2,15 @@ SPEC = {
     "id": "C14",
     "level": "other",
     "sidecars": ["quote"],
-    "functions": ["ural/quote.py:_unquote_impl"],
+    "functions": ["ural/quote.py:_unquote_impl", "ural/quote.py:safely_quote_iter", "ural/quote.py:safely_quote", "ural/quote.py:upper_quoted"],
     "bounded": ["bcheck.c14"],
     "explanation": (
         "Deductive (all inputs, pyvc) at the DECODE SITE of _unquote_impl, the one place where an escape is turned into a raw byte: the byte appended raw "
         "is printable when only_printable is asked (no C0 control, no DEL), is not in the unsafe set of the component (delimiters and '%' stay escaped), and "
-        "does not complete a dangling '%' / '%X' already written into a new escape; the function raises nothing. "
+        "does not complete a dangling '%' / '%X' already written into a new escape; the function raises nothing. safely_quote_iter / safely_quote: the string is cut "
+        "by the escape pattern and, piece by piece and in order, a well-formed escape is kept as written and everything else goes through quote (nothing is escaped "
+        "twice, nothing is skipped), the result is the concatenation of the pieces; upper_quoted is one substitution pass of the lower-case-escape pattern (nothing "
+        "outside its matches changes). "
         "Bounded (bcheck/c14.py against the independent oracle bcheck/ref_c14.py, which never calls ural): for the four safely_unquote_* functions - decodes "
         "to the same bytes (one strict pass), no raw space, no new control character, delimiters stay escaped, no new escape, no double decoding, idempotent; "
         "for safely_quote - ASCII only, existing escapes kept verbatim, everything else escaped, same decoded bytes, idempotent; upper_quoted only changes "
